@@ -292,6 +292,45 @@ def worker(job):
                         viol('reads-openssl-differently', 'openssl-topk8/%s/%s' % (v1, pname), 'different key')
                 except Exception as exc:        # pylint: disable=broad-except
                     viol('cannot-read-openssl', 'openssl-topk8/%s/%s' % (v1, pname), repr(exc)[:200])
+    # keys that went through a file: the object remembers the file name, which must never turn into a comment
+    for infmt in ('pkcs8-pem', 'openssh', 'pkcs8-der'):
+        for cmt in (None, b'orig comment'):
+            if cmt is not None and infmt != 'openssh':
+                continue
+            src = asyncssh.import_private_key(key.export_private_key('pkcs8-pem'))
+            src.set_comment(cmt)
+            pth = os.path.join(tmp, 'viafile-%s' % infmt)
+            try:
+                with open(pth, 'wb') as f:
+                    f.write(src.export_private_key(infmt))
+            except asyncssh.KeyExportError:
+                continue
+            loaded = asyncssh.read_private_key(pth)
+            for outfmt in ('openssh', 'pkcs8-pem', 'pub-openssh', 'pub-rfc4716', 'write-private', 'write-public'):
+                lab = 'via-file/%s->%s/%s' % (infmt, outfmt, 'comment' if cmt else 'nocomment')
+                acc.add(core.digest((alg, lab)), transitions=1)
+                try:
+                    if outfmt == 'write-private':
+                        loaded.write_private_key(pth + '.out')
+                        back = asyncssh.import_private_key(open(pth + '.out', 'rb').read())
+                    elif outfmt == 'write-public':
+                        loaded.write_public_key(pth + '.pub')
+                        back = asyncssh.import_public_key(open(pth + '.pub', 'rb').read())
+                    elif outfmt.startswith('pub-'):
+                        back = asyncssh.import_public_key(loaded.export_public_key(outfmt[4:]))
+                    else:
+                        back = asyncssh.import_private_key(loaded.export_private_key(outfmt))
+                    want = cmt if not (outfmt == 'pkcs8-pem') else None
+                    got = back.get_comment_bytes() if back.has_comment() else None
+                    if got != want:
+                        viol('comment-changed', lab, 'key read from a file and exported as %s comes back with comment %r, the key has %r'
+                             % (outfmt, got, want))
+                    if back.public_data != key.public_data:
+                        viol('roundtrip', lab, 'different key')
+                except (asyncssh.KeyExportError, asyncssh.KeyImportError) as exc:
+                    acc.count('via-file-not-exportable')
+                except Exception as exc:    # pylint: disable=broad-except
+                    viol('roundtrip', lab, repr(exc)[:200])
     # files with several concatenated keys of mixed formats
     blobs = [key.export_private_key('pkcs8-pem'), key2.export_private_key('openssh'), key.export_private_key('pkcs1-pem')
              if alg in ('ssh-rsa', 'ssh-dss') or alg.startswith('ecdsa') else key2.export_private_key('pkcs8-pem')]
@@ -633,7 +672,8 @@ def main(tier, seed):
             'passphrases {1 char, non-ASCII, 31/32/33 chars, 1 kB} (quick: full passphrase grid on one scheme per '
             'family) with 5 wrong-passphrase variants each; 6 public formats x 8 comments (double blanks, tabs, '
             'non-UTF-8); PyCA loaders, ssh-keygen (-y, -l, -e -m, key generation in 3 formats) and openssl (pkey, '
-            'pkcs8 -topk8 v1/v2) as independent readers/writers; concatenated multi-key files in every order; '
+            'pkcs8 -topk8 v1/v2) as independent readers/writers; keys read back from files and exported again '
+            '(6 export paths, with and without comment); concatenated multi-key files in every order; '
             'certificates: CA x subject key types x every combination of the 2 critical options and 6 extensions '
             '(full grid for ed25519/ed25519) written by asyncssh and read by asyncssh, PyCA and ssh-keygen -L; '
             'certificates written by PyCA and by ssh-keygen -s read by asyncssh; EC/RSA/Ed25519/DSA private keys '
